@@ -16,6 +16,13 @@ Clauses (DESIGN.md section 6, C15):
                (routine, bounds) variant of cowat / supst / sat / tsat, region, separated_steam_fraction and the
                IAPWS-97 counterparts twice in a row and every ordered pair as f, g, f must reproduce bit for bit
                the value the call has as the first call after a fresh import of both modules
+ (h) calls     order independence over a lattice of CALLS (ref/c15calls.py): cowat / supst / region over a (t, p)
+               lattice x range flag, sat / b23p over its temperatures, tsat over its pressures,
+               separated_steam_fraction over (h, P1, {single stage, every P2}) and IAPWS-97 calls - every call twice
+               in a row, every ordered pair of calls as f, g, f, and every ordered triple of a stated core subset,
+               without restoring isolation in between; every value bit for bit the isolated value of that call.
+               A call that shares some arguments with the one before it (the same P1 with another number of stages,
+               the same t at another p, the same state with the other flag, another routine) is in the space
 
 Known defect F10 (tsat raises for every input) would hide (c), the tsat part of (d) and all of (f): after the
 failure has been recorded, the case is continued under the documented remedy (sat called with the scalar inside the
@@ -26,6 +33,7 @@ import os
 
 from mc import core
 from ref import thermo as R
+from ref import c15calls as K
 
 ID = 'C15'
 LEVEL = 'exploration'
@@ -38,7 +46,7 @@ RULE = ('compare / identity: every state of the liquid lattice (T x the lower of
         'x (p lattice to 120 MPa + ulp neighbours of 0, 100 MPa, sat(T), b23p(T)) for cowat and supst, the T set for '
         'sat, a log pressure lattice + neighbours of sat(0.01) and 22.12 MPa for tsat; classifiers: the same (T, p) set '
         'restricted to t <= 350 or t > 374.15 and further than 1 % from the curves; separator: h = 0..3.5 MJ/kg step '
-        '10 kJ/kg x P1 = 0.1..5 MPa step 0.1 x {single stage, every ordered pair (P1, P2) of the same grid, P2 below, equal to and above P1}; history: at every limit state (limit temperatures x limit pressures, both with ulp neighbours), the end points of tsat and a thinned lattice, up to 14 call variants x (twice in a row + every ordered pair as f, g, f) against the value after a fresh import.  One evaluation = one oracle '
+        '10 kJ/kg x P1 = 0.1..5 MPa step 0.1 x {single stage, every ordered pair (P1, P2) of the same grid, P2 below, equal to and above P1}; history: at every limit state (limit temperatures x limit pressures, both with ulp neighbours), the end points of tsat and a thinned lattice, up to 14 call variants x (twice in a row + every ordered pair as f, g, f) against the value after a fresh import; calls: the call lattice of BOUNDS[tier].calls (every call x every call as f, g, f; every ordered triple of the core calls), each value against the value of that call first after a fresh import.  One evaluation = one oracle '
         'decision on one state; distinct = distinct (clause, routine, state); non-trivial = the clause has an oracle at '
         'the state (classifier states near a curve or between 350 and 374.15 degC are executed but not judged)')
 ASSUMPTIONS = [
@@ -62,9 +70,11 @@ ASSUMPTIONS = [
 ]
 BOUNDS = {
     'quick': {'T_step_degC': 2, 'pressures_per_isotherm': 40, 'sat_line_step_degC': 0.1, 'tsat_lattice_points': 300,
-              'separator': 'single stage complete; every ordered two-stage pair of {0.1,0.5,1,2,3,4,5} MPa', 'limits': 'complete'},
+              'separator': 'single stage complete; every ordered two-stage pair of {0.1,0.5,1,2,3,4,5} MPa', 'limits': 'complete',
+              'calls': K.LATTICE['quick']},
     'thorough': {'T_step_degC': 1, 'pressures_per_isotherm': 60, 'sat_line_step_degC': 0.1, 'tsat_lattice_points': 3000,
-                 'separator': 'single stage and all 2500 ordered two-stage pairs', 'limits': 'complete'},
+                 'separator': 'single stage and all 2500 ordered two-stage pairs', 'limits': 'complete',
+                 'calls': K.LATTICE['thorough']},
 }
 TECHNIQUE = ('bounded exhaustive enumeration: lattice + ulp-neighbour enumeration of (T,p) states on the real IFC-67 '
              'routines against the IAPWS-97 routines (differential oracle), a reference range predicate and identities')
@@ -77,8 +87,8 @@ LEVEL_NOTE = ('Continuous domain: nothing is claimed between lattice points.  Tr
 CAL = os.environ.get('VERIF_CALIBRATE') == '1'
 
 PARAMS = {
-    'quick': dict(tstep=2., npres=40, ntsat=300, two_stage='coarse', tchunk=32),
-    'thorough': dict(tstep=1., npres=60, ntsat=3000, two_stage='all', tchunk=32),
+    'quick': dict(tstep=2., npres=40, ntsat=300, two_stage='coarse', tchunk=32, callrows=16),
+    'thorough': dict(tstep=1., npres=60, ntsat=3000, two_stage='all', tchunk=32, callrows=16),
 }
 
 TSAT_TOL = 1.0e-6           # degC, DESIGN C15 oracle: tsat(sat(t)) = t (1e-6)
@@ -671,6 +681,58 @@ def chk_history(T, I, t, p, cls, lo=None):
 
 
 # ----------------------------------------------------------------------------------------------------------
+# (h) order independence over the call lattice
+# ----------------------------------------------------------------------------------------------------------
+
+_ISO = {}
+
+
+def isolated_values(tier):
+    if tier not in _ISO:
+        libs()
+        with core.timelimit(3000):
+            _ISO[tier] = K.isolated(fresh_libraries, libs, K.call_lattice(tier) + K.core_calls(tier), core.CaseTimeout)
+    return _ISO[tier]
+
+
+def chk_calls(tier, kind, a, b=None):
+    """kind 'pairs': rows a..b of the call lattice - f twice, then g, f for every other call g.
+    kind 'triples': every ordered triple of core calls that starts with core call a.
+    Returns (viols with case, number of calls compared)."""
+    iso = isolated_values(tier)
+    run = K.Runner(fresh_libraries, libs, iso, core.CaseTimeout)
+    if kind == 'pairs':
+        calls = K.call_lattice(tier)
+        for f in calls[a:b]:
+            run.do(f)
+            run.do(f)
+            for g in calls:
+                if g is not f:
+                    run.do(g)
+                    run.do(f)
+    else:
+        calls = K.core_calls(tier)
+        f = calls[a]
+        for g in calls:
+            for h in calls:
+                run.do(f)
+                run.do(g)
+                run.do(h)
+    fresh_libraries()
+    out = []
+    for sig in sorted(run.bad):
+        seq, spec, want, got, after = run.bad[sig]
+        what = ('%s gives %s as the first call after a fresh import but %s after %s (hex floats; the routines are '
+                'pure functions of their arguments)'
+                % (K.fmt(spec), want, got, ', '.join(K.fmt(x) for x in seq[:-1]) if seq else
+                   'a longer history ending with ' + after))
+        case = ({'clause': 'calls', 'seq': seq} if seq else
+                {'clause': 'calls-unit', 'tier': tier, 'kind': kind, 'a': a, 'b': b})
+        out.append((sig, what, case))
+    return out, run.n
+
+
+# ----------------------------------------------------------------------------------------------------------
 # units
 # ----------------------------------------------------------------------------------------------------------
 
@@ -713,6 +775,12 @@ def units(tier):
     cfg = sep_configs(tier)
     for k, ch in enumerate(core.chunks(list(range(len(cfg))), 48 if tier == 'thorough' else 16)):
         us.append(('separator', ch[0], ch[-1] + 1))
+    nc = len(K.call_lattice(tier))
+    for a in range(0, nc, P['callrows']):
+        us.append(('call-pairs', a, min(nc, a + P['callrows'])))
+    for a in range(len(K.core_calls(tier))):
+        us.append(('call-triples', a))
+    isolated_values(tier)       # once, before the workers are forked
     return us
 
 
@@ -818,6 +886,14 @@ def _run_unit(unit, tier, rec):
             for sig, what in v:
                 rec.violation(sig, what, {'clause': 'separator', 'p1': p1, 'p2': p2})
         rec.sample({'clause': 'separator', 'configurations': len(cfg), 'first': cfg[0], 'enthalpies': len(H_GRID)})
+    elif kind in ('call-pairs', 'call-triples'):
+        k2 = kind[5:]
+        v, n = chk_calls(tier, k2, unit[1], unit[2] if k2 == 'pairs' else None)
+        rec.bulk(n, [(kind, unit[1], k) for k in range(n)], outcome='calls-%s-%s' % (k2, 'ok' if not v else 'differs'))
+        for sig, what, case in v:
+            rec.violation(sig, what, case)
+        rec.sample({'clause': kind, 'unit': list(unit[1:]), 'calls_compared': n,
+                    'first_call': (K.call_lattice(tier) if k2 == 'pairs' else K.core_calls(tier))[unit[1]]})
     else:
         raise core.HarnessError('unknown unit %r' % (unit,))
     W.flush(rec)
@@ -855,6 +931,10 @@ def replay(case):
         return chk_history(T, I, case['t'], case['p'], case['cls'])[0]
     if c == 'separator':
         return chk_separator(T, case['p1'], case['p2'])[0]
+    if c == 'calls':
+        return K.replay_case(fresh_libraries, libs, case['seq'], core.CaseTimeout)
+    if c == 'calls-unit':
+        return [(sig, what) for sig, what, _ in chk_calls(case['tier'], case['kind'], case['a'], case['b'])[0]]
     if c == 'curve':
         try:
             steam_pmax(T, I, case['t'])
